@@ -13,6 +13,7 @@ import (
 	"github.com/idena-network/idena-go/blockchain/validation"
 	"github.com/idena-network/idena-go/common"
 	"github.com/idena-network/idena-go/common/vclock"
+	"github.com/idena-network/idena-go/config"
 	"github.com/idena-network/idena-go/consensus"
 	"github.com/idena-network/idena-go/core/state"
 	"github.com/idena-network/idena-go/log"
@@ -201,6 +202,12 @@ func (s *seqCtx) candidate() (*sim.Replica, *types.BlockProposal, []byte) {
 	for i := 0; i < len(el); i++ {
 		a := el[(start+i)%len(el)]
 		tmp = copyAs(t, w, s.peerSide, "tmp-"+a.String(), a)
+		// a node started on a copy of the database begins with the world's initial consensus rules: bring it to the
+		// rules the network switched to when an upgrade block was accepted earlier in the sequence (a restarted real
+		// node reads the version from its configuration)
+		for v := tmp.Cfg.Consensus.Version + 1; v <= s.peerSide.Cfg.Consensus.Version; v++ {
+			config.ApplyConsensusVersion(v, tmp.Cfg.Consensus)
+		}
 		if ok, p := tmp.Chain.GetProposerSortition(); ok {
 			proof = p
 			break
